@@ -165,11 +165,11 @@ def run(ctx):
     from ..exprnorm import local_value as _lv
     rc_, sc_ = _lv(wr, "ref_codes"), _lv(wr, "seg_codes")
     from ..exprnorm import subst as _subst
-    codes_v = _lv(wr, "symbol_codes")
-    if codes_v is not None and rc_ is not None and sc_ is not None:
-        rc_, sc_ = _subst(rc_, {"symbol_codes": codes_v}), _subst(sc_, {"symbol_codes": codes_v})
+    # local_value composes the rows from the function's inputs: `alignment` is the one the trace columns are taken from (terminal
+    # gaps removed unless include_terminal_gaps)
+    ali = "(_remove_terminal_segment_gaps(alignment, segment_index) if not include_terminal_gaps else alignment)"
     ctx.ob("R3.match-rows-by-index", CIG, "write_alignment_to_cigar", "ref_codes / seg_codes = get_codes(alignment)[reference_index / segment_index]",
-           rc_ is not None and sc_ is not None and same_expr(rc_, "get_codes(alignment)[reference_index, :]") and same_expr(sc_, "get_codes(alignment)[segment_index, :]"),
+           rc_ is not None and sc_ is not None and same_expr(rc_, f"get_codes({ali})[reference_index, :]") and same_expr(sc_, f"get_codes({ali})[segment_index, :]"),
            "'=' and 'X' are decided by comparing the rows given by reference_index and segment_index (not the first two rows); the code uses "
            + (ast.unparse(rc_)[:60] if rc_ is not None else "?") + " / " + (ast.unparse(sc_)[:60] if sc_ is not None else "?"), wr.lineno)
     ctx.ob("R3.masks", CIG, "write_alignment_to_cigar", "insertion & deletion -> ValueError",
